@@ -120,6 +120,8 @@ mod derived {
 	#[derive(Encode, Decode)]
 	pub struct LedPair { pub a: Led, pub b: Led, pub c: Led }
 	#[derive(Encode, Decode)]
+	pub struct LedTup(pub Led, pub Led, pub Led);
+	#[derive(Encode, Decode)]
 	pub enum LedEnum { #[codec(index = 0)] One(Led), #[codec(index = 1)] Three(Led, Led, Led) }
 	#[derive(Encode, Decode)]
 	#[repr(transparent)]
@@ -262,6 +264,21 @@ pub fn run_vector(ctx: &mut Ctx, shape: &str, n: usize, f: i64, kind: &str) {
 		"optarcarr" if n == 3 => { let mut i = vec![1u8]; i.extend(elems(3, f, kind, None)); run::<Option<Arc<[Led; 3]>>>(ctx, shape, 3, f, kind, i, 3) },
 		#[cfg(feature = "derive")]
 		"struct3" if n == 3 => run::<LedPair>(ctx, shape, 3, f, kind, elems(3, f, kind, None), 3),
+		// derived structs decoded in place (behind a pointer, inside an array)
+		#[cfg(feature = "derive")]
+		"boxtupstruct3" if n == 3 => run::<Box<LedTup>>(ctx, shape, 3, f, kind, elems(3, f, kind, None), 3),
+		#[cfg(feature = "derive")]
+		"boxstruct3" if n == 3 => run::<Box<LedPair>>(ctx, shape, 3, f, kind, elems(3, f, kind, None), 3),
+		#[cfg(feature = "derive")]
+		"arrtupstruct" if n == 3 => run::<[LedTup; 2]>(ctx, shape, 3, f, kind, elems(6, f, kind, None), 6),
+		#[cfg(feature = "derive")]
+		"rctupstruct3" if n == 3 => run::<Rc<LedTup>>(ctx, shape, 3, f, kind, elems(3, f, kind, None), 3),
+		"boxtuple3" if n == 3 => run::<Box<(Led, Led, Led)>>(ctx, shape, 3, f, kind, elems(3, f, kind, None), 3),
+		"arrtuple2" if n == 3 => run::<[(Led, Led); 3]>(ctx, shape, 3, f, kind, elems(6, f, kind, None), 6),
+		#[cfg(feature = "generic-array")]
+		"garray3" if n == 3 => run::<generic_array::GenericArray<Led, generic_array::typenum::U3>>(ctx, shape, 3, f, kind, elems(3, f, kind, None), 3),
+		#[cfg(feature = "generic-array")]
+		"boxgarray3" if n == 3 => run::<Box<generic_array::GenericArray<Led, generic_array::typenum::U3>>>(ctx, shape, 3, f, kind, elems(3, f, kind, None), 3),
 		#[cfg(feature = "derive")]
 		"enum3" if n == 3 => { let mut i = vec![1u8]; i.extend(elems(3, f, kind, None)); run::<LedEnum>(ctx, shape, 3, f, kind, i, 3) },
 		#[cfg(feature = "derive")]
